@@ -99,16 +99,16 @@ package protocol
 //@   assert @C17 before append#3: old(isArgEncoding(src)) && !sameArray(old(dst), src) && 0 <= qk && qk < qn && i == qpos[qk] ==> x1 == qx[qk] / 16 && x2 == qx[qk] % 16
 //@   assert @C17 before append#4: old(isArgEncoding(src)) && !sameArray(old(dst), src) && 0 <= qk && qk < qn && i == qpos[qk] ==> qx[qk] == ' ' && qpos[qk+1] == i + 1
 //@   assert @C17 before append#5: old(isArgEncoding(src)) && !sameArray(old(dst), src) && 0 <= qk && qk < qn && i == qpos[qk] ==> qx[qk] == c && qpos[qk+1] == i + 1
-//@   assert @C17 after append#3: old(isArgEncoding(src)) && !sameArray(old(dst), src) && 0 <= qk && qk < qn && i == qpos[qk] && len(dst) == len(old(dst)) + qk && forall(j, 0, qk, dst[len(old(dst)) + j] == qx[j]) ==> len(result) == len(old(dst)) + qk + 1 && result[len(old(dst)) + qk] == qx[qk] && forall(j, 0, qk, result[len(old(dst)) + j] == qx[j])
-//@   assert @C17 after append#4: old(isArgEncoding(src)) && !sameArray(old(dst), src) && 0 <= qk && qk < qn && i == qpos[qk] && len(dst) == len(old(dst)) + qk && forall(j, 0, qk, dst[len(old(dst)) + j] == qx[j]) ==> len(result) == len(old(dst)) + qk + 1 && result[len(old(dst)) + qk] == qx[qk] && forall(j, 0, qk, result[len(old(dst)) + j] == qx[j])
-//@   assert @C17 after append#5: old(isArgEncoding(src)) && !sameArray(old(dst), src) && 0 <= qk && qk < qn && i == qpos[qk] && len(dst) == len(old(dst)) + qk && forall(j, 0, qk, dst[len(old(dst)) + j] == qx[j]) ==> len(result) == len(old(dst)) + qk + 1 && result[len(old(dst)) + qk] == qx[qk] && forall(j, 0, qk, result[len(old(dst)) + j] == qx[j])
+//@   assert @C17 after append#3: old(isArgEncoding(src)) && !sameArray(old(dst), src) && 0 <= qk && qk < qn && i == qpos[qk] && len(dst) == len(old(dst)) + qk && forallT(j, 0, qk, qx[j], dst[len(old(dst)) + j] == qx[j]) ==> len(result) == len(old(dst)) + qk + 1 && result[len(old(dst)) + qk] == qx[qk] && forallT(j, 0, qk, qx[j], result[len(old(dst)) + j] == qx[j])
+//@   assert @C17 after append#4: old(isArgEncoding(src)) && !sameArray(old(dst), src) && 0 <= qk && qk < qn && i == qpos[qk] && len(dst) == len(old(dst)) + qk && forallT(j, 0, qk, qx[j], dst[len(old(dst)) + j] == qx[j]) ==> len(result) == len(old(dst)) + qk + 1 && result[len(old(dst)) + qk] == qx[qk] && forallT(j, 0, qk, qx[j], result[len(old(dst)) + j] == qx[j])
+//@   assert @C17 after append#5: old(isArgEncoding(src)) && !sameArray(old(dst), src) && 0 <= qk && qk < qn && i == qpos[qk] && len(dst) == len(old(dst)) + qk && forallT(j, 0, qk, qx[j], dst[len(old(dst)) + j] == qx[j]) ==> len(result) == len(old(dst)) + qk + 1 && result[len(old(dst)) + qk] == qx[qk] && forallT(j, 0, qk, qx[j], result[len(old(dst)) + j] == qx[j])
 //@   ensures extends(r, dst) && spareOnly(dst)
-//@   top-ensures @C17 old(isArgEncoding(src)) && !sameArray(dst, src) ==> len(r) == len(dst) + qn && forall(k, 0, qn, r[len(dst) + k] == qx[k])
+//@   top-ensures @C17 old(isArgEncoding(src)) && !sameArray(dst, src) ==> len(r) == len(dst) + qn && forallT(k, 0, qn, qx[k], r[len(dst) + k] == qx[k])
 //@   loop 0:
 //@     invariant 0 <= i && i <= len(src)
 //@     invariant extends(dst, old(dst)) && spareOnly(old(dst))
 //@     invariant @C17 old(isArgEncoding(src)) && !sameArray(old(dst), src) ==> 0 <= qk && qk <= qn && i == qpos[qk] && len(dst) == len(old(dst)) + qk
-//@     invariant @C17 old(isArgEncoding(src)) && !sameArray(old(dst), src) ==> forall(j, 0, qk, dst[len(old(dst)) + j] == qx[j])
+//@     invariant @C17 old(isArgEncoding(src)) && !sameArray(old(dst), src) ==> forallT(j, 0, qk, qx[j], dst[len(old(dst)) + j] == qx[j])
 //@     invariant @C17 old(isArgEncoding(src)) && !sameArray(old(dst), src) ==> isArgEncoding(src)
 
 //@ func decodeCookieArg(dst, src, skipQuotes) r
